@@ -35,6 +35,7 @@ def run(ctx):
         if c == "unchecked":
             ctx.guard("C07", "twins", lambda: features.twins(ctx, prog, scope='FuzzyHashDualData', floor=2))
         ctx.guard("C07", "casts", lambda: casts.census(ctx, prog, scope='hash_dual::', floor=3))
+        ctx.guard("C07", "parse-forms", lambda: parser.entry_forms(ctx, prog))
         ctx.guard("C07", "summaries", lambda: summary.check(ctx, prog, 'hash_dual::', floor=10))
         ctx.guard("C07", "path summaries", lambda: summary.check_paths(ctx, prog, 'hash_dual::', floor=4))
         if c in ("dbg", "unsafe_dbg", "strict_dbg"):
